@@ -20,12 +20,19 @@ from ..report import AnalysisError
 from ..term import Resolver, pmatch
 
 COV = "inference/gp/covariance.py"
-FLOORS = {"difference-before-square": 2, "float-arithmetic": 1, "state-refreshed": 1, "components-not-shared": 1, "posterior-closed-form": 6, "factor-of": 1, "triangular-solves": 1, "kernel-result-shape": 2,
+FLOORS = {"kernel-siblings-agree": 11, "difference-before-square": 2, "float-arithmetic": 1, "state-refreshed": 1, "components-not-shared": 1, "posterior-closed-form": 6, "factor-of": 1, "triangular-solves": 1, "kernel-result-shape": 2,
           "error-input-typestate": 3, "query-normalisation": 4}
 
 
 def run(prog, tier):
+    # K_qx / K_qq come from a kernel's pairwise call, K_xx from its builder: the closed form needs them to be the same kernel -
+    # the clause C02 shares with C10, decided there (builder = pairwise + declared diagonal; change-point recurrences agree;
+    # composites add each component on its own slice)
+    from .common import borrow
+    shared = borrow(prog, tier, "C10", {"builder-vs-pairwise", "changepoint-siblings", "composite-structure"}, "kernel-siblings-agree",
+                    "the posterior formula pairs K_xx (builder) with K_qx, K_qq (pairwise call) of the same kernel")
     obs, info = [], []
+    obs.extend(shared)
     problems = []
 
     # ---------------------------------------------------------------- alpha, L
